@@ -156,6 +156,7 @@ func stagewise(cfg config, n *big.Int) (oracle dict.Sum, final addchain.Chain, o
 		oracle = out
 	}
 	dc := dict.VerifDictSumChain(out)
+	c01LastDS = []string{"c01ds", encTerms(out), encInts(dc)}
 	all := append(append(addchain.Chain{}, pruned...), dc...)
 	sort.Slice(all, func(i, j int) bool { return all[i].Cmp(all[j]) < 0 })
 	for _, x := range all {
@@ -172,8 +173,16 @@ func stagewise(cfg config, n *big.Int) (oracle dict.Sum, final addchain.Chain, o
 	return oracle, final, true
 }
 
+// c01LastDS: the input and output of the last dictsumchain call made by stagewise (the driver runs the
+// function as translated from dict.go on the same sum)
+var c01LastDS []string
+
 func c01Case(g *Gen, cfg config, n *big.Int) {
+	c01LastDS = nil
 	g.Line(c01Fields(cfg, n)...)
+	if c01LastDS != nil && c01LastDS[1] != "" && c01LastDS[1] != "-" {
+		g.Line(c01LastDS...)
+	}
 	g.Count(cfg.kind)
 }
 
